@@ -20,6 +20,13 @@ Violations: C(arg, cls, mutation, expected class(es), header quote, kind) -- the
 from the \\expect{ERR_...} clause quoted next to them; "ANY" = the header promises an error without naming the class.
 """
 import ctypes, copy
+import itertools as _it
+_alt_counter = _it.count()
+
+
+def _alternate():
+    return next(_alt_counter) % 2 == 0
+
 
 from ..core import Harness
 from ..bee2 import errcode, errname
@@ -386,7 +393,7 @@ ROWS["beltCHEUnwrap"] = Row(_aead_unwrap_row("beltCHEUnwrap", "beltCHEWrap"))
 @row("beltKWPWrap")
 def _kwp_wrap(E, r):
     klen, count = _pick_klen(r), r.choice((16, 17, 24, 32, 33, 64))
-    nullhdr = r.random() < 0.25
+    nullhdr = _alternate()
     args = [OUT("dest", count + 16), IN("src", rb(r, count)), V("count", count),
             V("header", 0) if nullhdr else IN("header", rb(r, 16)), IN("key", rb(r, klen)), V("len", klen)]
     cases = keylen_cases()
@@ -399,7 +406,7 @@ def _kwp_wrap(E, r):
 def _kwp_unwrap(E, r):
     lib = E.lib
     klen, count = _pick_klen(r), r.choice((16, 17, 24, 32, 33, 64))
-    nullhdr = r.random() < 0.25
+    nullhdr = _alternate()
     src, key, hdr = rb(r, count), rb(r, klen), (bytes(16) if nullhdr else rb(r, 16))
     d = lib.alloc(count + 16)
     E.call_ok("beltKWPWrap", d, lib.mk(src), count, lib.mk(hdr), lib.mk(key), klen)
@@ -1327,7 +1334,7 @@ def _bign_keywrap(E, r):
     cv = curve(E, r.choice((128, 192, 256)))
     _, Q = cv.keypair(E, r)
     ln = r.choice((16, 17, 32, 33, 64))
-    nullhdr = r.random() < 0.3
+    nullhdr = _alternate()   # deterministic: every second instance uses the NULL (all-zero) header
     args = [OUT("token", cv.no + 16 + ln), IN("params", cv.image), IN("key", rb(r, ln)), V("len", ln),
             V("header", 0) if nullhdr else IN("header", rb(r, 16)), IN("pubkey", Q)] + E.rng_args(r)
     cases = params_cases("bignKeyWrap", cv, "bign.h", r, full=False) + pubkey_cases("bignKeyWrap", cv, "bign.h", Q, r)
@@ -1346,7 +1353,7 @@ def _bign_keyunwrap(E, r):
     d, Q = cv.keypair(E, r)
     d2, _ = cv.keypair(E, r)
     ln = r.choice((16, 17, 32, 33, 64))
-    nullhdr = r.random() < 0.3
+    nullhdr = _alternate()   # deterministic: every second instance uses the NULL (all-zero) header
     key, hdr = rb(r, ln), (bytes(16) if nullhdr else rb(r, 16))
     gen, st = E.live_rng(r)
     t = lib.alloc(cv.no + 16 + ln)
